@@ -12,7 +12,7 @@ for seed in ${SEEDS:-0 1}; do
   grep -E "^VIOLATION|^KNOWN-FINDING|^\[$pid\]|INFRA" /tmp/tryseed-$pid-$$.log | cut -c1-260 | head -6
   [ $s -ne 0 ] && st=$s
 done
-git checkout -q evidence/"$pid".json lean/PfModel/Generated 2>/dev/null
+git checkout -q lean/PfModel/Generated 2>/dev/null
 git -C /repo worktree remove --force "$wt"
 rm -f /tmp/tryseed-$pid-$$.log
 echo "try_seed $pid $(basename "$patch"): exit=$st"
